@@ -1017,6 +1017,22 @@ def _only_metadata_differs(a, b):
     return out
 
 
+def _mask_fits(node, mask):
+    """does the mask have the shape the copied entity expects (vertices; cells for grids; values for data)?"""
+    k = _kind_of(node["cls"])
+    if k == "KGroup":
+        return False  # a group passes the mask to every object below it: some may not fit
+    if k == "KData":
+        v = node["attrs"].get("values")
+        return isinstance(v, list) and len(v) == len(mask)
+    geo = GEO.get(node["cls"], "GPlain")
+    if geo == "GGrid":
+        return node.get("nc") == len(mask)
+    if geo == "GPlain":
+        return True
+    return (node.get("nv") or 0) == len(mask)
+
+
 def _has_curve(n):
     return GEO.get(n["cls"]) == "GCurve" or any(_has_curve(c) for c in n.get("children", []))
 
@@ -1051,8 +1067,8 @@ def oracle(case, obs):
         if target == "self":
             fails.append({"key": "group-copy-into-itself-recursion", "what": f"copying a group into itself raised {obs['error']}"})
             expected = True
-        if mask is not None and obs["error"] in ("ValueError", "TypeError"):
-            expected = True  # a mask whose shape fits no entity of the subtree is refused
+        if mask is not None and obs["error"] in ("ValueError", "TypeError") and not _mask_fits(obs["src_reloaded"], mask):
+            expected = True  # a mask whose shape does not fit the copied entity (or some object below a copied group) is refused
         if not expected:
             fails.append({"key": "copy-refused:" + obs["error"], "what": f"copy of {obs['src_cls']} to {target} raised {obs['error']}: {obs.get('msg')}"})
     # source and bystanders untouched by the copy itself
